@@ -217,10 +217,11 @@ theorem consumeFixed32_eq (b : Bytes) : GoSrc.Wire.consumeFixed32 b = .ok (Wire.
   case cons.cons.cons.cons =>
     have h0 := y0.isLt; have h1 := y1.isLt; have h2 := y2.isLt; have h3 := y3.isLt
     have hl : ¬ (Go.len (y0 :: y1 :: y2 :: y3 :: rest) < 4) := by simp [Go.len]; omega
-    simp only [hl, if_false]
+    have hl' : (Go.len (y0 :: y1 :: y2 :: y3 :: rest) ≥ 4) := by simp [Go.len]; omega
+    simp only [hl, hl', if_false, if_true, not_true_eq_false, not_false_eq_true]
     simp [Go.index]
     exact le32 _ _ _ _ h0 h1 h2 h3
-  all_goals simp [Go.len, errTruncated]
+  all_goals first | (simp [Go.len, errTruncated]; done) | (simp [Go.len, errTruncated] <;> omega)
 
 theorem consumeFixed64_eq (b : Bytes) : GoSrc.Wire.consumeFixed64 b = .ok (Wire.consumeFixed64 b) := by
   unfold GoSrc.Wire.consumeFixed64 Wire.consumeFixed64
@@ -399,9 +400,13 @@ theorem loop1_succ (num n0 depth : Int) (g : Nat) (b : Bytes) :
           else do
             let b2 ← Go.sliceFrom b1 m
             GoSrc.Wire.consumeFieldValueD.loop1 num n0 depth g b2) := by
-  conv => lhs; unfold GoSrc.Wire.consumeFieldValueD.loop1
-  simp only [consumeTag_eq, Res.bind_ok]
-  rfl
+  first
+  | (conv => lhs; unfold GoSrc.Wire.consumeFieldValueD.loop1
+     simp only [consumeTag_eq, Res.bind_ok]
+     rfl)
+  | (conv => lhs; unfold GoSrc.Wire.consumeFieldValueD.loop1
+     simp only [consumeTag_eq, Res.bind_ok, bind, Res.bind, pure]
+     grind)
 
 theorem loop_tie (hf : Nat) : ∀ (gf : Nat) (num : Int) (b : Bytes) (depth n0 : Int),
     b.length < 9223372036854775808 → b.length < hf → 2 * hf ≤ gf → (b.length : Int) ≤ n0 →
@@ -502,7 +507,11 @@ theorem sizeVarintGo_eq (v : Nat) (hv : v < 18446744073709551616) :
   have e1 : ((L : Int) % 4294967296).toNat = L := by omega
   rw [e1]
   have e2 : (9 * L % 4294967296 + 64) % 4294967296 = 9 * L + 64 := by omega
-  rw [e2]
+  have e3 : (64 + L * 9 % 4294967296) % 4294967296 = 9 * L + 64 := by omega
+  first
+  | rw [e2]
+  | rw [e3]
+  | (simp only [Nat.mul_comm, Nat.add_comm] at e2 ⊢; rw [e2])
   rw [Int.tdiv_eq_ediv_of_nonneg (by omega)]
   omega
 
